@@ -1304,15 +1304,15 @@ def run(tier):
         ])
     summ = Summaries(prog)
     ab = Abs(prog, summ)
-    rule_r1_r2(chk, prog, ab)
-    rule_r3(chk, prog, ab)
-    rule_r4(chk, prog, ab)
-    rule_r5(chk, prog, ab)
+    chk.guard(rule_r1_r2, chk, prog, ab)
+    chk.guard(rule_r3, chk, prog, ab)
+    chk.guard(rule_r4, chk, prog, ab)
+    chk.guard(rule_r5, chk, prog, ab)
     # declarations are placed before their first use: the prefix-insertion
     # rule of C11.R5
     from . import c11
     sub = Check('C11', 'other', tier, [], [])
-    c11.rule_r5(sub, prog)
+    chk.guard(c11.rule_r5, sub, prog)
     chk.rule('C15.R6', 'introduced declarations are inserted right after the '
              'leading set-info/set-logic prefix, i.e. before every use '
              '(shared with C11.R5)')
